@@ -9,6 +9,7 @@ package kernel
 // store numbers every mutating call and can cut execution there (crash).
 
 import (
+	"runtime/debug"
 	"bytes"
 	"fmt"
 	"os"
@@ -30,6 +31,9 @@ func vpKCatch(f func()) (p any) {
 	defer func() {
 		if r := recover(); r != nil {
 			p = r
+			if os.Getenv("VERIF_STACK") != "" {
+				fmt.Printf("vpKCatch: %v\n%s\n", r, debug.Stack())
+			}
 		}
 	}()
 	f()
